@@ -130,7 +130,7 @@ Definition src_add_input_to_map : list string :=  [
    "party_name = operation.party.name"; 
    "PARTIES[party_name] = operation.party"; 
    "if party_name not in INPUTS: ;     INPUTS[party_name] = {}"; 
-   "if operation.name in INPUTS[party_name] and INPUTS[party_name][operation.name][0].id != operation.id: ;     raise CompilerException(f'Input is duplicated: {operation.name}')"; 
+   "for party_inputs in INPUTS.values(): ;     if operation.name in party_inputs and party_inputs[operation.name][0].id != operation.id: ;         raise CompilerException(f'Input is duplicated: {operation.name}')"; 
    "INPUTS[party_name][operation.name] = (operation, operation.ty)"; 
    "return operation.to_mir()"].
 
@@ -171,6 +171,7 @@ Definition src_NadaFunction_init : list string :=  [
    "self.store_in_ast()"].
 
 Definition src_NadaFunction_call : list string :=  [
+   "if kwargs: ;     args = inspect.signature(self.function).bind_partial(*args, **kwargs).args"; 
    "return self.return_type(child=NadaFunctionCall(self, args, source_ref=SourceRef.back_frame()))"].
 
 Definition src_NadaFunctionCall_init : list string :=  [
@@ -254,7 +255,7 @@ Definition src_Array_zip : list string :=  [
 
 Definition src_Array_inner_product : list string :=  [
    "if self.size != other.size: ;     raise IncompatibleTypesError('Cannot do child product of arrays of different size')"; 
-   "if is_primitive_integer(self.retrieve_inner_type()) and is_primitive_integer(other.retrieve_inner_type()): ;     contained_type = self.contained_type if inspect.isclass(self.contained_type) else self.contained_type.__class__ ;     return contained_type(child=InnerProduct(left=self, right=other, source_ref=SourceRef.back_frame()))"; 
+   "if is_primitive_integer(self.retrieve_inner_type()) and is_primitive_integer(other.retrieve_inner_type()): ;     left_type = self.contained_type if inspect.isclass(self.contained_type) else self.contained_type.__class__ ;     right_type = other.contained_type if inspect.isclass(other.contained_type) else other.contained_type.__class__ ;     mode = Mode(max(left_type.mode.value, right_type.mode.value)) ;     contained_type = new_scalar_type(mode, left_type.base_type) ;     return contained_type(child=InnerProduct(left=self, right=other, source_ref=SourceRef.back_frame()))"; 
    "raise InvalidTypeError('Inner product is only implemented for arrays of integer types')"].
 
 Definition src_Array_new : list string :=  [
